@@ -830,7 +830,8 @@ theorem inv_send {P : Params} {s : State} (h : Inv P s) (id msg : Nat) (dl : Opt
 
 /-! ### a housekeeping tick -/
 
-def dropped (P : Params) (t : Nat) (e : Pend) : Bool := pastDeadline t e.deadline || exhausted P e.n
+def dropped (P : Params) (t : Nat) (e : Pend) : Bool :=
+  pastDeadline t e.deadline || (exhausted P e.n && lastTimeoutPassed P t e)
 def due (P : Params) (t : Nat) (e : Pend) : Bool := decide (t > e.start + (e.n + retransmitAddend) * P.ackTimeout)
 def bumped (P : Params) (t : Nat) (e : Pend) : Bool := !dropped P t e && due P t e
 
@@ -838,12 +839,28 @@ theorem tickEntry_eq (P : Params) (t : Nat) (e : Pend) :
     tickEntry P t e = if dropped P t e then (none, none)
       else if due P t e then (some { e with n := e.n + 1 }, some (.tx e.id (e.n + 1) t e.msg)) else (some e, none) := by
   unfold tickEntry dropped due
-  by_cases h1 : (pastDeadline t e.deadline || exhausted P e.n) = true
+  by_cases h1 : (pastDeadline t e.deadline || (exhausted P e.n && lastTimeoutPassed P t e)) = true
   · simp [h1]
   · simp only [h1]
     -- the entry is not dropped in the pass that wrote the copy: regenerated fact
     have hd : dropsInPassOfLastCopy = false := rfl
     by_cases h2 : t > e.start + (e.n + retransmitAddend) * P.ackTimeout <;> simp [h2, hd]
+
+/-- An entry that is retransmitted in this pass had not used up its retransmissions: a due entry whose copies are
+    all out has, by the same timeout, also passed the window of its last copy and is dropped instead. -/
+theorem not_exhausted_of_kept_due {P : Params} {t : Nat} {e : Pend} (hd : dropped P t e = false) (hdue : due P t e = true) :
+    exhausted P e.n = false := by
+  simp only [dropped, Bool.or_eq_false_iff, Bool.and_eq_false_iff] at hd
+  rcases hd.2 with h | h
+  · exact h
+  · -- the last copy's timeout is the timeout of the next retransmission (same addend), or the conjunct is absent
+    exfalso
+    have hadd : exhaustionWaitsLastTimeout = false ∨ lastCopyAddend = retransmitAddend := by decide
+    rcases hadd with hw | ha
+    · simp [lastTimeoutPassed, hw] at h
+    · simp only [lastTimeoutPassed, Bool.or_eq_false_iff, ha] at h
+      simp only [due] at hdue
+      exact (of_decide_eq_false h.2) (of_decide_eq_true hdue)
 
 theorem tickList_cons (P : Params) (t : Nat) (e : Pend) (r : List Pend) :
     tickList P t (e :: r) =
@@ -1076,8 +1093,7 @@ theorem inv_tick {P : Params} {s : State} (h : Inv P s) (ahead : Nat) : Inv P (t
     · rw [heq]
       refine ⟨?_, c2, m0, List.mem_append_right _ c3⟩
       rw [hone e he]; simp [bumped, hdue]; exact c1
-    · have hlt := lt_of_not_exhausted (P := P) (n := e.n) (by
-        simp only [dropped, Bool.or_eq_false_iff] at hd; exact hd.2)
+    · have hlt := lt_of_not_exhausted (P := P) (n := e.n) (not_exhausted_of_kept_due hd hdue)
       rw [heq]
       refine ⟨?_, by simp only; omega, m0, List.mem_append_right _ c3⟩
       simp only
@@ -1089,10 +1105,9 @@ theorem inv_tick {P : Params} {s : State} (h : Inv P s) (ahead : Nat) : Inv P (t
       obtain ⟨c1, c2, _⟩ := h.cnt e he
       by_cases hb : bumped P t e = true
       · simp only [hb, if_true]
-        have hd : dropped P t e = false := by
-          simp only [bumped, Bool.and_eq_true, Bool.not_eq_true'] at hb; exact hb.1
-        have hlt := lt_of_not_exhausted (P := P) (n := e.n) (by
-          simp only [dropped, Bool.or_eq_false_iff] at hd; exact hd.2)
+        have hb' := hb
+        simp only [bumped, Bool.and_eq_true, Bool.not_eq_true'] at hb'
+        have hlt := lt_of_not_exhausted (P := P) (n := e.n) (not_exhausted_of_kept_due hb'.1 hb'.2)
         omega
       · simp only [hb]
         have := h.bound e.id
@@ -1114,8 +1129,7 @@ theorem inv_tick {P : Params} {s : State} (h : Inv P s) (ahead : Nat) : Inv P (t
       injection hx with x1 x2 x3 x4
       subst x1 x2 x3 x4
       simp only [bumped, Bool.and_eq_true, Bool.not_eq_true'] at hb
-      have hlt := lt_of_not_exhausted (P := P) (n := e.n) (by
-        have := hb.1; simp only [dropped, Bool.or_eq_false_iff] at this; exact this.2)
+      have hlt := lt_of_not_exhausted (P := P) (n := e.n) (not_exhausted_of_kept_due hb.1 hb.2)
       obtain ⟨c, hc, h1, _, h3⟩ := h.pa e he
       obtain ⟨_, _, m0, c3⟩ := h.cnt e he
       refine ⟨by omega, ⟨c, hc, h1, fun _ => h3, fun hk0 => by omega⟩,
